@@ -13,6 +13,8 @@ import types
 PROPERTY = 'C14'
 
 INTERVALS = [1, 7, 100, 1000]
+INTERVALS_T = [1, 2, 3, 7, 10, 48, 100, 999, 1000, 1001, 90000]     # thorough tier
+TIMESCALES_T = [(1, 240), (100, 240), (1000, 90000), (90000, 44100), (100, 30000), (48000, 48000), (10000000, 90000), (90000, 1)]
 TIMESCALES = [(100, 240), (1000, 90000), (90000, 44100), (100, 30000)]     # (event, representation)
 MAX_EVENTS = 6
 
@@ -27,7 +29,8 @@ OUTSIDE = ['the CRC-32/MPEG-2 polynomial itself', 'the XML scte35:Binary wrapper
 
 
 def bounds(tier):
-    return {'intervals': INTERVALS, 'timescales(event,rep)': TIMESCALES if tier == 'thorough' else TIMESCALES[:3],
+    return {'intervals': INTERVALS_T if tier == 'thorough' else INTERVALS,
+            'timescales(event,rep)': TIMESCALES_T if tier == 'thorough' else TIMESCALES[:3],
             'max_events_per_segment': MAX_EVENTS, 'versions': [0, 1]}
 
 
@@ -125,7 +128,7 @@ def instances(tier):
     B = bounds(tier)
     out = []
     for (te, tr) in B['timescales(event,rep)']:
-        for interval in INTERVALS:
+        for interval in B['intervals']:
             for version in (0, 1):
                 out.append({'name': f'once[ping,I={interval},te={te},tr={tr},v={version}]', 'fn': h_once,
                             'params': {'interval': interval, 'te': te, 'tr': tr, 'version': version, 'cls_name': 'ping'},
